@@ -2,7 +2,7 @@
    Statements only; proofs are in Proofs/CliContract.v and Proofs/AnalyzerProofs.v. *)
 From Coq Require Import List NArith Bool Permutation.
 From Verif Require Import Base.Res Model.Cli Model.Analyzer Proofs.CliContract Proofs.AnalyzerProofs Base.Text Model.Scope Proofs.ScopeProofs Gen.GenRules Model.Rules Proofs.RulesProofs.
-From Verif Require Model.ExprKind Proofs.ExprKindProofs Model.DataDecl Proofs.DataDeclProofs.
+From Verif Require Model.DeclRules Proofs.DeclRulesProofs Model.ExprKind Proofs.ExprKindProofs Model.DataDecl Proofs.DataDeclProofs.
 Import ListNotations.
 
 (* a file that fails to tokenize or parse makes the check of the whole set fail, whatever the other
@@ -94,3 +94,9 @@ Theorem C03_second_type_declaration_diagnosed : forall s n k p,
   Rules.mem n (DataDecl.d_decl s) = true -> DataDecl.node_data (DataDecl.d_nodes s) n <> None ->
   DataDecl.dstep s (DataDecl.TyDecl n (Some k) p) = inr (P_DeclarationNameDuplicated, p).
 Proof. exact DataDeclProofs.duplicate_declaration_diagnosed. Qed.
+
+(* the rules on type declarations are concatenations over the declarations: a structure, enumeration or subrange that breaks its
+   rule makes the rule fail in any company *)
+Theorem C03_faulty_type_declaration_not_masked : forall (g : DeclRules.tyfact -> list DeclRules.ldiag) fs f,
+  In f fs -> g f <> [] -> flat_map g fs <> [].
+Proof. exact DeclRulesProofs.rule_not_masked. Qed.
